@@ -424,6 +424,25 @@ def genTimeline (live audio numberInMedia : Bool) (pto startNumber : Int) (segDu
       (segNum, e) :: (if stop then [] else go (idx + 1) total' rest)
   go 0 0 entries
 
+/-- errors `generate_segments_using_segment_timeline` attaches to the Representation itself -/
+inductive RepErr
+  /-- `SegmentTimeline has duration {0}, expected {1} based upon timeshiftbufferdepth`
+  (representation.py:321-326) -/
+  | timelineShort
+  deriving DecidableEq, Repr
+
+/-- representation.py:321-326: a live timeline has to cover the time-shift buffer (unless less
+than the buffer is going to be validated).  `targetUs` = `target_duration`, `tsbdUs` =
+MPD@timeShiftBufferDepth, both in µs; `total_duration ≥ tsbd.total_seconds() · timescale`. -/
+def timelineDepthErrs (live : Bool) (targetUs : Option Int) (tsbdUs : Int) (dashTs : Nat)
+    (entries : List (Int × Int)) : List RepErr :=
+  let whole : Bool := match targetUs with
+    | none => true
+    | some t => decide (tsbdUs ≤ t)
+  if live ∧ whole then
+    (if tsbdUs * dashTs ≤ ((entries.map (·.2)).sum) * 1000000 then [] else [.timelineShort])
+  else []
+
 /-- tolerances of `generate_segments_using_segment_template` (representation.py:242, 250-255) -/
 def templateTolerance (audio : Bool) (ts frNum frDen : Nat) (idx : Nat) : Nat :=
   let t := frameTolerance ts frNum frDen
